@@ -39,7 +39,13 @@ namespace sort_strings_detail {
 
 /******************************************************************************/
 
+#if defined(TLX_VERIF) && defined(TLX_VERIF_INSSORT_THRESHOLD)
+// verification hook: lowers the switch-over to insertion sort so that the radix
+// sort steps run on a handful of strings (off unless TLX_VERIF is defined).
+static const size_t g_inssort_threshold = TLX_VERIF_INSSORT_THRESHOLD;
+#else
 static const size_t g_inssort_threshold = 32;
+#endif
 
 /******************************************************************************/
 // Out-of-place 8-bit radix-sort WITHOUT character caching.
